@@ -166,9 +166,36 @@ func (in *Interp) truth(v value) bool {
 	case bool:
 		return v
 	case *Sym:
-		return in.branch(v.T)
+		return in.branchBool(v.T)
 	}
 	panic(engineError{fmt.Sprintf("truth: %T", v)})
+}
+
+// branchBool decides a condition; conjunctions and disjunctions over several
+// variables are decided operand by operand (short-circuit), which keeps the
+// path condition made of single-variable literals the byte domains can decide.
+func (in *Interp) branchBool(c *term.Term) bool {
+	if c.MV && in.summaryDepth == 0 {
+		switch c.Op {
+		case term.OpAnd:
+			for _, a := range c.Args {
+				if !in.branchBool(a) {
+					return false
+				}
+			}
+			return true
+		case term.OpOr:
+			for _, a := range c.Args {
+				if in.branchBool(a) {
+					return true
+				}
+			}
+			return false
+		case term.OpNot:
+			return !in.branchBool(c.Args[0])
+		}
+	}
+	return in.branch(c)
 }
 
 func (in *Interp) and(a, b value) value {
